@@ -37,6 +37,9 @@ CHECKS = {
  "C17": ("bounded-exhaustive enumeration of visibility x marker x doc-comment assignments (E1); syn inspection of every emitted item",
          "Every pub/private assignment over seven item positions x every subset of the four markers on a plain type (and marker subsets on a vftable type and an enum), and every assignment of {none, one line, multi-line with empty lines} docs to seven positions, with a derived type inheriting documented members: visibility of every emitted type/field/method/accessor/slot, privacy of generated fields and placeholder slots, exact derive sets, packed-without-align repr, and #[doc] attributes line for line on the counterparts and on no other item.",
          "Enum variants are not among the counterparts the statement lists; their docs are only required not to land elsewhere.", "DESIGN.md §6 C17"),
+ "C18": ("bounded-exhaustive enumeration of abstract modules x concrete-syntax styles (E1) and exhaustive token-sequence exploration of the parser (E3)",
+         "Abstract modules are built with pyxis's own grammar constructors (all types to nesting depth 4/5 in five positions, all attribute lists up to length 2 over a 13-attribute alphabet in eleven positions, all signatures with up to 3 arguments, all item sequences up to length 3, boundary integers in every integer position), printed by an independent printer in a covering set of styles (comments between all tokens, trailing commas, doc spellings, attribute grouping, integer spellings, backend forms, item interleaving) and must parse back to exactly the same value. Negative side: every token sequence over a 41-token alphabet to length 3, then breadth-first over the sequences the parser has not yet rejected to length 5 (7 thorough): accepted text must re-print and re-parse to the same module, rejected text must report a position inside the text, nothing may panic.",
+         "The printer is the harness's; `_` as an argument name is outside the de-facto language (the parser's lookahead does not admit it) and is not generated. No independent recogniser decides accept/reject of arbitrary token strings.", "DESIGN.md §6 C18"),
 }
 
 NOT_YET = {
